@@ -135,11 +135,20 @@ def print_assumptions(pid, names, extra_q=()):
 
 # ------------------------------------------------------------------------------------------ cases
 
+def _big_stack():
+    # long soak cases are list literals with tens of thousands of elements: coqc's parser needs a deep stack
+    import resource
+    try: resource.setrlimit(resource.RLIMIT_STACK, (resource.RLIM_INFINITY, resource.RLIM_INFINITY))
+    except Exception: pass
+
+
 def run_shard(args):
     path, extra = args
     cmd = ["coqc", "-noglob", "-Q", COQ, "Signalo"] + extra + [os.path.basename(path)]
     try:
-        rc, out = sh(cmd, cwd=os.path.dirname(path), timeout=1500)
+        p = subprocess.run(cmd, cwd=os.path.dirname(path), stdout=subprocess.PIPE, stderr=subprocess.STDOUT, timeout=1500,
+                           env=ENV, text=True, preexec_fn=_big_stack)
+        rc, out = p.returncode, p.stdout
     except subprocess.TimeoutExpired:
         return path, None, "timeout"
     if rc: return path, None, out[-2000:]
@@ -226,6 +235,8 @@ def shrink(pid, line, want_mask, cfg, profile, extra, budget_s=45):
                 nf = fields[:fi] + [k + "=" + ",".join(new)] + fields[fi + 1:]
                 cands.append("|".join([kind] + nf))
         cands = list(dict.fromkeys(cands))[:96]
+        # very long cases (soak runs): only a handful of candidates per round, or the shard would not fit in memory
+        if len(best) > 20000: cands = cands[:6]
         if not cands: break
         d = os.path.join(BUILD, "cases", pid, "shrink")
         ok, out = harness_exec(pid, cands, d, profile)
